@@ -59,6 +59,8 @@ def main():
     old = {r['id']: r for r in json.load(open(path))['results']}
   for r in out:
     old[r['id']] = r
+  live = {m['id'] for m in mutants.MUTANTS}
+  old = {k: v for k, v in old.items() if k in live}
   json.dump({'note': 'mutation self-test of the checks (tools/selftest.py); not a registered check',
              'results': sorted(old.values(), key=lambda r: (r['property'], r['id']))},
             open(path, 'w'), indent=1)
